@@ -287,7 +287,17 @@ def init_rule(ctx, p, K):
     for arr in ("self.image_frame_1d_lengths", "self.blurring_frame_1d_lengths"):
         s = rows[arr]
         v = s.value
-        good = isinstance(v, Poly) and "frame >= 0" in repr(v) and repr(v).startswith("shape(")
+        good = False
+        if isinstance(v, Poly):
+            ats = list(v.atoms())
+            if len(ats) == 1 and ats[0][0] == "f" and ats[0][1] == "shape" and len(ats[0][2]) == 2 and ats[0][2][1] == ZERO:
+                inner = list(ats[0][2][0].atoms())
+                if len(inner) == 1 and inner[0][0] == "i" and len(inner[0][2]) == 1:
+                    fname = inner[0][1]
+                    mk = list(inner[0][2][0].atoms())
+                    # frame[frame >= 0].shape[0] of the frame returned by the frame routine in this iteration
+                    good = fname.endswith(".frame") and fname.startswith("frame_at_coordinates_jit#") and len(mk) == 1 and mk[0][0] == "f" and mk[0][1] == "mask" \
+                        and repr(mk[0][2][0]) in (repr(Poly.sym(repr((fname, ">=", "0")))), repr(Poly.sym(repr(("0", "<=", fname)))))
         ctx.ob(rule, f.key + ":" + arr, good, where=f, node=s.node, construct=short(v), message="frame length must be the count of entries >= 0 of the frame just built")
 
 
